@@ -126,7 +126,11 @@ impl<'a> IrEmitter<'a> {
         let r = &info.r;
         let arg_exprs: Vec<TypedExpr> = args.iter().map(|a| a.expr.clone()).collect();
 
-        if let Some(kind) = MethodKind::from_name(method) {
+        let user_receiver = matches!(
+            receiver.ty,
+            IrType::Struct(_) | IrType::Enum(_) | IrType::Trait(_) | IrType::SelfType
+        ) && MethodKind::from_name(method) != Some(MethodKind::Pop);
+        if let (false, Some(kind)) = (user_receiver, MethodKind::from_name(method)) {
             if let Some(res) = emit_string_method(self, &receiver.ty, &info, &kind, &arg_exprs) {
                 return res;
             }
